@@ -326,9 +326,23 @@ impl Write for SimSink {
         if let Some(k) = s.fail_from_call {
             if s.stats.calls > k {
                 s.stats.dead_errors += 1;
-                fired("sink_call_error");
                 log_seam(b'e', buf.len() as u64, 0);
-                return Err(io::Error::other("sim: sink error"));
+                // three ways a destination stops taking bytes: an error, a full device that accepts 0 bytes of a
+                // non-empty buffer (callers turn that into WriteZero), a broken pipe
+                return match k % 3 {
+                    0 => {
+                        fired("sink_call_error");
+                        Err(io::Error::other("sim: sink error"))
+                    }
+                    1 => {
+                        fired("sink_accepts_zero_bytes");
+                        Ok(0)
+                    }
+                    _ => {
+                        fired("sink_broken_pipe");
+                        Err(io::Error::new(io::ErrorKind::BrokenPipe, "sim: broken pipe"))
+                    }
+                };
             }
         }
         let mut n = match s.sched.next(buf.len()) {
